@@ -75,6 +75,9 @@ impl Check for C16Faults {
         if input.len() > 400 {
             return CaseResult::Discard("input longer than 400 bytes".into());
         }
+        if case.pipeline == 3 && !crate::univ::coherent_for_unique(&input) {
+            return CaseResult::Discard("--unique over values where jawk's = and hash disagree (outside C10's domain; the kept rows depend on the hash seed)".into());
+        }
         let mut args = pipeline_args(case.pipeline);
         args.push(format!("--on-error={}", POLICIES[case.policy as usize]));
         let delivery = if case.interrupt_every > 0 { Delivery::ChunksInterrupted(case.chunks.clone(), case.interrupt_every) } else { Delivery::Chunks(case.chunks.clone()) };
